@@ -26,3 +26,39 @@ Theorem C12_code_estimator_flag : forall (biased : bool) (n : nat),
   divisor biased n = if (biased || Nat.ltb n 2)%bool then n else n - 1.
 Proof. reflexivity. Qed.
 Print Assumptions C12_code_estimator_flag.
+
+(* ---- the scatter step of the optimise phase AS TRANSLATED in skeleton mode (graphical_lasso.optimize_markov_random_fields,
+   _setup_optimization_task -> Gen/G_gl_optimize.v, G_gl_setup.v; facts: Proofs/GenEquivGO.v): the optimisation task of
+   cluster k is set up from the cluster fetched at index k, with the number of series int(NW / W), the window size, THE USER'S
+   sparsity weight and the pool, for k = 0 .. K-1 in this order; and a task hands the pool  admm.admm_optimize_theta  with the
+   argument list built from (cluster.empirical_covariance, density_penalty, window_size, num_data_series) and the fixed
+   solver settings - for every behaviour of every callee ---- *)
+From Ticc Require Import Gen.PySkel Gen.G_gl_optimize Gen.G_gl_setup Proofs.GenEquivGO.
+Local Open Scope string_scope.
+
+Theorem C12_code_tasks_in_cluster_order : forall (V : Type) (vint : Z -> V) (as_int : V -> option Z) (getattr : V -> string -> V)
+    (oracle : list (event V) -> string -> list V -> res V) (model data pool r : V) (log log' : list (event V)) (K : Z),
+  as_int (getattr (getattr model "arguments") "num_clusters") = Some K ->
+  g_optimize_markov_random_fields V vint as_int getattr oracle model data pool log = (Ret r, log') ->
+  exists q N none tasks0 ext tasks_final,
+    log' = (log ++ [Ev "op:/" [getattr (getattr data "shape") "[1]"; getattr (getattr model "arguments") "window_size"];
+                    Ev "int" [q]; Ev "expr:[None]" []; Ev "op:*" [none; getattr (getattr model "arguments") "num_clusters"]]
+                ++ ext ++ [Ev "_retrieve_optimization_results" [model; tasks_final]])%list /\
+    oracle (log ++ [Ev "op:/" [getattr (getattr data "shape") "[1]"; getattr (getattr model "arguments") "window_size"]])%list "int" [q] = Ret N /\
+    oracle (log ++ [Ev "op:/" [getattr (getattr data "shape") "[1]"; getattr (getattr model "arguments") "window_size"];
+                    Ev "int" [q]; Ev "expr:[None]" []])%list "op:*" [none; getattr (getattr model "arguments") "num_clusters"] = Ret tasks0 /\
+    length ext = 3 * Z.to_nat K /\
+    (forall k, k < Z.to_nat K ->
+       exists c t tb, firstn 3 (skipn (3 * k) ext) = setup_events V vint getattr model N pool tb k c t).
+Proof. exact optimize_returns. Qed.
+Print Assumptions C12_code_tasks_in_cluster_order.
+
+Theorem C12_code_task_arguments : forall (V : Type) (vglobal : string -> V) (oracle : list (event V) -> string -> list V -> res V)
+    (cluster N W lam pool r : V) (log log' : list (event V)),
+  g_setup_optimization_task V vglobal oracle cluster N W lam pool log = (Ret r, log') ->
+  exists args kwargs,
+    log' = (log ++ [Ev "expr:[cluster.empirical_covariance, density_penalty, window_size, num_data_series]" [cluster; lam; N; W];
+                    Ev "expr:{'rho': 1, 'rho_update': None, 'max_iterations': 1000, 'relative_tolerance': 1e-06, 'absolute_tolerance': 1e-06, 'verbose': False}" [];
+                    Ev "method:apply_async" [pool; vglobal "admm.admm_optimize_theta"; args; kwargs]])%list.
+Proof. exact setup_returns. Qed.
+Print Assumptions C12_code_task_arguments.
